@@ -49,12 +49,78 @@ def impl(line):
             q = bins(qs, qe, fmt=fmt, one=False)
             b = bins(fs, fe, fmt=fmt, one=True)
             return "ok " + ("true" if b in q else "false")
+        if t[0] == "objbin":
+            return f"ok one {_objbin(t[1], int(t[2]), int(t[3]))}"
+        if t[0] == "bquery":
+            return _bquery(t)
         raise KeyError(t[0])
     return guarded(go)
 
 
+_CLS = {}
+
+
+def _classes():
+    if not _CLS:
+        from harness import shims
+        shims.install()
+        from inscripta.biocantor.gene import (TranscriptInterval, FeatureInterval, GeneInterval,
+                                              FeatureIntervalCollection, AnnotationCollection)
+        from inscripta.biocantor.gene.variants import VariantInterval, VariantIntervalCollection
+        from inscripta.biocantor.location.strand import Strand
+        _CLS.update(tx=TranscriptInterval, feat=FeatureInterval, gene=GeneInterval, fcoll=FeatureIntervalCollection,
+                    acoll=AnnotationCollection, var=VariantInterval, vcoll=VariantIntervalCollection, plus=Strand.PLUS)
+    return _CLS
+
+
+def _objbin(kind, s, e):
+    c = _classes()
+    P = c["plus"]
+    if kind == "tx":
+        return c["tx"]([s], [e], P).bin
+    if kind == "feat":
+        return c["feat"]([s], [e], P).bin
+    if kind == "gene":      # two isoforms spanning [s, e)
+        m = (s + e) // 2
+        return c["gene"](transcripts=[c["tx"]([s], [max(s, m)], P), c["tx"]([min(m, e), ], [e], P)]).bin
+    if kind == "fcoll":
+        m = (s + e) // 2
+        return c["fcoll"](feature_intervals=[c["feat"]([s], [max(s, m)], P), c["feat"]([min(m, e)], [e], P)]).bin
+    if kind == "var":
+        return c["var"](s, e, "A", "SNV").bin
+    if kind == "vcoll":
+        return c["vcoll"]([c["var"](s, e, "A", "SNV")]).bin
+    if kind == "acoll":
+        return c["acoll"](genes=[c["gene"](transcripts=[c["tx"]([s], [e], P)])]).bin
+    raise KeyError(kind)
+
+
+def _bquery(t):
+    c = _classes()
+    P = c["plus"]
+    cw, qs, qe, n = t[1] == "1", int(t[2]), int(t[3]), int(t[4])
+    i = 5
+    genes, fcs, order = [], [], []
+    for ci in range(n):
+        kind, k = t[i], int(t[i + 1])
+        i += 2
+        spans = [(int(t[i + 2 * j]), int(t[i + 2 * j + 1])) for j in range(k)]
+        i += 2 * k
+        if kind == "g":
+            genes.append(c["gene"](transcripts=[c["tx"]([s], [e], P) for s, e in spans], gene_id=f"c{ci}"))
+        else:
+            fcs.append(c["fcoll"](feature_intervals=[c["feat"]([s], [e], P) for s, e in spans], feature_collection_id=f"c{ci}"))
+    coll = c["acoll"](genes=genes, feature_collections=fcs, start=0, end=2 ** 31)
+    res = coll.query_by_position(qs, qe, completely_within=cw)
+    kept = sorted(int((getattr(ch, "gene_id", None) or getattr(ch, "feature_collection_id", None))[1:])
+                  for ch in res.iter_children())
+    return "ok " + " ".join(map(str, kept))
+
+
 def nontrivial(line, ans):
     t = line.split()
+    if t[0] in ("objbin", "bquery"):
+        return line if ans.startswith("ok") else None
     if t[0] == "bins":
         s, e, off = int(t[1]), int(t[2]), (1 if t[3] == "gff" else 0)
         return line if 0 <= s - off and s <= e < MAXC else None
@@ -111,6 +177,51 @@ def cases(run):
         if qe >= MAXC:
             run.count("pair:query-past-2^29")
         yield f"binpair {qs} {qe} {fs} {fe} {fmt}"
+    # the bin stored at construction by every interval class, at bin-boundary aligned spans
+    aligned = [p for p in pts if 0 <= p < 2 ** 29 + 4]
+    kinds = ["tx", "feat", "gene", "fcoll", "var", "acoll"]
+    for kind in kinds:
+        for s in (aligned if run.tier == "thorough" else aligned[::2]):
+            for d in (1, 2, 131072, 131073, 2 ** 20):
+                yield f"objbin {kind} {s} {s + d}"
+    # end-to-end position queries: multi-member children whose members sit in different bins, query windows
+    # in and around the gaps (the pre-filter looks at the members' bins, the answer at the child's span)
+    for _ in range(400 if run.tier == "quick" else 8000):
+        n = rng.randint(1, 4)
+        kids = []
+        for _c in range(n):
+            base = rng.choice(aligned[:-6]) + rng.choice([0, 1, 5000, 131072 * rng.randint(0, 12)])
+            k = rng.choice([1, 2, 2, 3])
+            spans, pos = [], base
+            for _m in range(k):
+                ln = rng.choice([1, 500, 3000, 131072, 300000])
+                spans.append((pos, pos + ln))
+                pos += ln + rng.choice([0, 1000, 131072, 300000, 2 ** 21])
+            kids.append((rng.choice("gf"), spans))
+        lo = min(s for _, sp in kids for s, _ in sp)
+        hi = max(e for _, sp in kids for _, e in sp)
+        for _q in range(4):
+            mode = rng.random()
+            if mode < 0.4:      # a window inside a gap between members
+                _, sp = rng.choice(kids)
+                if len(sp) > 1:
+                    j = rng.randrange(len(sp) - 1)
+                    a, b = sp[j][1], sp[j + 1][0]
+                    qs = rng.randint(a, max(a, b - 1))
+                    qe = rng.randint(qs + 1, max(qs + 1, b))
+                else:
+                    qs, qe = sp[0][0], sp[0][1]
+            elif mode < 0.7:    # exactly / just around a child's span
+                _, sp = rng.choice(kids)
+                qs = max(0, sp[0][0] - rng.choice([0, 0, 1, 131072]))
+                qe = sp[-1][1] + rng.choice([0, 0, 1, 131072])
+            else:
+                qs = rng.randint(max(0, lo - 10), hi)
+                qe = rng.randint(qs + 1, hi + 300000)
+            cw = rng.choice("01")
+            run.count("bquery:" + ("strict" if cw == "1" else "relaxed"))
+            desc = " ".join(f"{k} {len(sp)} " + " ".join(f"{s} {e}" for s, e in sp) for k, sp in kids)
+            yield f"bquery {cw} {qs} {qe} {len(kids)} {desc}"
     for _ in range(2000 if run.tier == "quick" else 50000):
         s = rng.randint(-5, 2 ** 30)
         e = s + rng.choice([0, 1, 7, 131071, 131072, 10 ** 6, 10 ** 8])
